@@ -1230,9 +1230,9 @@ pub async fn run(ctx: &Ctx) {
                 let inj0 = led.lock().unwrap().injected_delivered;
                 // socket kind: an unauthenticated request may travel as an RFC 4571 frame over the attacker's own TCP
                 // connection to A's passive listener (a new connection, or - every other time - the one opened before)
-                let over_tcp = judged && is_req && op.kind == "req" && a_tcp.is_some() && !j.faults_on_wire;
+                let over_tcp = judged && (op.kind == "req" || op.kind == "resp") && a_tcp.is_some() && !j.faults_on_wire;
                 let mut tcp_ok = false;
-                let over_turn = judged && is_req && op.kind == "req" && via_turn && turn_client.lock().unwrap().is_some();
+                let over_turn = judged && (op.kind == "req" || op.kind == "resp") && via_turn && turn_client.lock().unwrap().is_some();
                 if over_turn {
                     // the attacker's datagram to the relayed address, as the relay forwards it: a Data indication from S to
                     // A's TURN socket with XOR-PEER-ADDRESS = the attacker's source and DATA = the request
@@ -1244,10 +1244,14 @@ pub async fn run(ctx: &Ctx) {
                     ctx.ev("attack travels through the TURN relay", &format!("peer {from} -> relayed address -> Data indication {s_addr} -> {to}"));
                     ctx.net.inject(s_addr, to, &ind);
                     let mut l = led.lock().unwrap();
-                    l.unauth_req_delivered += 1;
-                    l.last_judged_is_req = Some(true);
+                    if is_req {
+                        l.unauth_req_delivered += 1;
+                    } else {
+                        l.unmatched_resp_delivered += 1;
+                    }
+                    l.last_judged_is_req = Some(is_req);
                     drop(l);
-                    ctx.stat("probe.unauth_req_over_turn", 1);
+                    ctx.stat(if is_req { "probe.unauth_req_over_turn" } else { "probe.unmatched_resp_over_turn" }, 1);
                 } else if over_tcp {
                     use tokio::io::AsyncWriteExt;
                     let mut f = (bytes.len() as u16).to_be_bytes().to_vec();
@@ -1278,7 +1282,11 @@ pub async fn run(ctx: &Ctx) {
                         m_conns.pop();
                         reuse = false;
                     }
-                    ctx.stat(if tcp_ok { "probe.unauth_req_over_tcp" } else { "probe.tcp_delivery_failed" }, 1);
+                    ctx.stat(if !tcp_ok { "probe.tcp_delivery_failed" } else if is_req { "probe.unauth_req_over_tcp" } else { "probe.unmatched_resp_over_tcp" }, 1);
+                    if tcp_ok {
+                        let mut l = led.lock().unwrap();
+                        l.last_judged_is_req = Some(is_req);
+                    }
                 } else {
                     ctx.net.inject(from, a_addr, &bytes);
                 }
